@@ -721,6 +721,15 @@ class WangLandauMachine:
                       str(endTime - startTime)))
                 startTime = t.time()
 
+            # verification hook (no effect unless LOCALCIDER_VERIF is set):
+            # per-iteration record of the Wang-Landau bookkeeping
+            if os.environ.get("LOCALCIDER_VERIF"):
+                if not hasattr(self, "_verif_trace"):
+                    self._verif_trace = []
+                self._verif_trace.append({"g": list(g), "H": list(H), "f": float(f),
+                                          "idx_old": int(idx_old), "skip": bool(skip),
+                                          "acceptProb": float(acceptProb), "nstep": int(nstep)})
+
         # Finalize and clean up
         dos = open(os.path.join(self.writeDir, "DOS.txt"), 'w')
         dos.write('bincts\tlog(omega)\n')
